@@ -12,9 +12,10 @@ import (
 // C19: channel helpers.  One plan line = one scenario on real channels.
 // queued: {"op":"RecvQueued"|"RecvQueuedFull","cap","fill","closed","limit","pending"}
 // timed:  {"op":"SendTimeout"|"SendContext"|"RecvTimeout"|"RecvContext","cap","fill","closed","dl","peer"}
-//   dl:   "zero" (timeout 0) | "neg" (timeout -1) | "short" (30ms) | "long" (2s) | "pre" (context cancelled before) |
-//         "post" (cancelled after 30ms) | "never" (background context)
-//   peer: "none" | "ready" (already waiting on the other side) | "later" (arrives after 30ms; 300ms when the deadline is short)
+//
+//	dl:   "zero" (timeout 0) | "neg" (timeout -1) | "short" (30ms) | "long" (2s) | "pre" (context cancelled before) |
+//	      "post" (cancelled after 30ms) | "never" (background context)
+//	peer: "none" | "ready" (already waiting on the other side) | "later" (arrives after 30ms; 300ms when the deadline is short)
 func init() { comps["chans"] = driveChans }
 
 func drain(ch chan int) []int {
